@@ -527,6 +527,492 @@ theorem file_never_vanishes (c0 : Content) (roles : List Role) (sched : List (Pi
     simp only [Option.bind_some, Option.isSome_map]
     rw [List.getElem?_eq_getElem hlt]; rfl
 
+/-! ### lock discipline: who holds what, and nothing is held by a finished process -/
+
+/-- the lock fields of the inodes and the processes' own view agree -/
+def LockInv (s : FS) : Prop :=
+  (∀ (i : Nat) (n : Inode), s.inodes[i]? = some n → ∀ p ∈ n.shared,
+      ∃ pr, s.procs[p]? = some pr ∧ pr.pc = .rRead ∧ pr.locked = true ∧ pr.handle = some i) ∧
+  (∀ (i : Nat) (n : Inode), s.inodes[i]? = some n → ∀ p, n.excl = some p →
+      ∃ pr, s.procs[p]? = some pr ∧ (pr.pc = .wRename ∨ pr.pc = .wUnlock) ∧ pr.locked = true ∧ pr.handle = some i) ∧
+  (∀ (i : Nat) (n : Inode), s.inodes[i]? = some n → n.excl.isSome = true → n.shared = []) ∧
+  (∀ (p : Pid) (pr : Proc), s.procs[p]? = some pr → (pr.pc = .wRename ∨ pr.pc = .wUnlock) → pr.locked = true →
+      ∀ i, pr.handle = some i → ∃ n, s.inodes[i]? = some n ∧ n.excl = some p)
+
+theorem lockinv_init (initial : Option Content) (roles : List Role) : LockInv (finit initial roles) := by
+  refine ⟨?_, ?_, ?_, ?_⟩
+  · intro i n hn p hp
+    cases initial with
+    | none => simp [finit] at hn
+    | some c =>
+      simp only [finit] at hn
+      cases i with
+      | zero => simp at hn; subst hn; simp at hp
+      | succ j => simp at hn
+  · intro i n hn p hp
+    cases initial with
+    | none => simp [finit] at hn
+    | some c =>
+      simp only [finit] at hn
+      cases i with
+      | zero => simp at hn; subst hn; simp at hp
+      | succ j => simp at hn
+  · intro i n hn _
+    cases initial with
+    | none => simp [finit] at hn
+    | some c =>
+      simp only [finit] at hn
+      cases i with
+      | zero => simp at hn; subst hn; rfl
+      | succ j => simp at hn
+  · intro p pr hp hpc
+    simp only [finit, List.getElem?_map] at hp
+    cases hr : roles[p]? with
+    | none => simp [hr] at hp
+    | some r =>
+      simp [hr] at hp; subst hp
+      cases r <;> simp [startOf] at hpc
+
+/-- a process that is at neither `rRead`, `wRename` nor `wUnlock` holds no lock -/
+theorem holds_nothing (s : FS) (hi : LockInv s) (p : Pid) (pr : Proc) (hp : s.procs[p]? = some pr)
+    (h1 : pr.pc ≠ .rRead) (h2 : pr.pc ≠ .wRename) (h3 : pr.pc ≠ .wUnlock) :
+    ∀ (i : Nat) (n : Inode), s.inodes[i]? = some n → p ∉ n.shared ∧ n.excl ≠ some p := by
+  intro i n hn
+  obtain ⟨l1, l2, _, _⟩ := hi
+  constructor
+  · intro hm
+    obtain ⟨pr', hp', hpc, _, _⟩ := l1 i n hn p hm
+    rw [hp] at hp'; cases hp'; exact h1 hpc
+  · intro he
+    obtain ⟨pr', hp', hpc, _, _⟩ := l2 i n hn p he
+    rw [hp] at hp'; cases hp'
+    rcases hpc with hpc | hpc
+    · exact h2 hpc
+    · exact h3 hpc
+
+/-- outside the three lock-holding program points a process's `locked` flag is off -/
+def FlagInv (s : FS) : Prop :=
+  ∀ (p : Pid) (pr : Proc), s.procs[p]? = some pr →
+    pr.pc ≠ .rRead → pr.pc ≠ .wRename → pr.pc ≠ .wUnlock → pr.locked = false
+
+theorem get_set_self {α : Type} (l : List α) (p : Nat) (v x : α) (hx : l[p]? = some x) :
+    (l.set p v)[p]? = some v := by
+  rw [List.getElem?_set_self']; simp [hx]
+
+/-- replacing the record of a process that holds nothing by one that claims nothing keeps the
+    lock invariant (the inodes are untouched) -/
+theorem lockinv_procs_only (s : FS) (hi : LockInv s) (p : Pid) (pr v : Proc) (hp : s.procs[p]? = some pr)
+    (h1 : pr.pc ≠ .rRead) (h2 : pr.pc ≠ .wRename) (h3 : pr.pc ≠ .wUnlock)
+    (hv : ¬ ((v.pc = .wRename ∨ v.pc = .wUnlock) ∧ v.locked = true))
+    (nm : Option Nat) :
+    LockInv { s with name := nm, procs := setProc s.procs p v } := by
+  have hn := holds_nothing s hi p pr hp h1 h2 h3
+  obtain ⟨l1, l2, l3, l4⟩ := hi
+  refine ⟨?_, ?_, l3, ?_⟩
+  · intro i n hin q hq
+    obtain ⟨pr', hp', a, b, c⟩ := l1 i n hin q hq
+    have hne : q ≠ p := fun e => (hn i n hin).1 (e ▸ hq)
+    exact ⟨pr', by simp only [setProc]; rw [List.getElem?_set_ne (Ne.symm hne)]; exact hp', a, b, c⟩
+  · intro i n hin q hq
+    obtain ⟨pr', hp', a, b, c⟩ := l2 i n hin q hq
+    have hne : q ≠ p := fun e => (hn i n hin).2 (e ▸ hq)
+    exact ⟨pr', by simp only [setProc]; rw [List.getElem?_set_ne (Ne.symm hne)]; exact hp', a, b, c⟩
+  · intro q x hq hpc hl i hh
+    rcases get_set _ _ _ _ _ hq with ⟨_, rfl⟩ | ⟨_, hq'⟩
+    · exact absurd ⟨hpc, hl⟩ hv
+    · exact l4 q x hq' hpc hl i hh
+
+theorem flaginv_set (s : FS) (hf : FlagInv s) (p : Pid) (v : Proc) (is : List Inode) (nm : Option Nat)
+    (hv : v.pc ≠ .rRead → v.pc ≠ .wRename → v.pc ≠ .wUnlock → v.locked = false) :
+    FlagInv { inodes := is, name := nm, procs := setProc s.procs p v } := by
+  intro q x hq a b c
+  rcases get_set _ _ _ _ _ hq with ⟨_, rfl⟩ | ⟨_, hq'⟩
+  · exact hv a b c
+  · exact hf q x hq' a b c
+
+theorem lockflag_step (s s' : FS) (p : Pid) (t : Bool) (hi : LockInv s) (hf : FlagInv s)
+    (h : fstep s p t = some s') : LockInv s' ∧ FlagInv s' := by
+  unfold fstep at h
+  cases hp : s.procs[p]? with
+  | none => simp [hp] at h
+  | some pr =>
+    simp only [hp] at h
+    have hflag := hf p pr hp
+    cases hpc : pr.pc with
+    | done => simp [hpc] at h
+    | rOpen =>
+      simp only [hpc] at h
+      have hl : pr.locked = false := hflag (by simp [hpc]) (by simp [hpc]) (by simp [hpc])
+      cases hn : s.name with
+      | none =>
+        simp only [hn, Option.some.injEq] at h; subst h
+        exact ⟨by simpa [hn] using lockinv_procs_only s hi p pr _ hp (by simp [hpc]) (by simp [hpc]) (by simp [hpc]) (by simp) s.name,
+          flaginv_set s hf p _ _ _ (by simp [hl])⟩
+      | some i =>
+        simp only [hn, Option.some.injEq] at h; subst h
+        exact ⟨by simpa [hn] using lockinv_procs_only s hi p pr _ hp (by simp [hpc]) (by simp [hpc]) (by simp [hpc]) (by simp) s.name,
+          flaginv_set s hf p _ _ _ (by simp [hl])⟩
+    | rLock =>
+      simp only [hpc] at h
+      have hl : pr.locked = false := hflag (by simp [hpc]) (by simp [hpc]) (by simp [hpc])
+      cases hb : pr.handle.bind (fun i => (s.inodes[i]?).map (fun n => (i, n))) with
+      | none => simp [hb] at h
+      | some x =>
+        obtain ⟨i, n⟩ := x
+        have hn := handle_inode s pr i n hb
+        have hh : pr.handle = some i := by
+          cases hx : pr.handle with
+          | none => simp [hx] at hb
+          | some j =>
+            simp only [hx, Option.bind_some, Option.map_eq_some_iff] at hb
+            obtain ⟨m, _, e⟩ := hb
+            cases e; rfl
+        simp only [hb] at h
+        split at h
+        · rename_i hex
+          simp only [Option.some.injEq] at h; subst h
+          have hnone := holds_nothing s hi p pr hp (by simp [hpc]) (by simp [hpc]) (by simp [hpc])
+          obtain ⟨l1, l2, l3, l4⟩ := hi
+          have hilt : i < s.inodes.length := (List.getElem?_eq_some_iff.1 hn).1
+          refine ⟨⟨?_, ?_, ?_, ?_⟩, flaginv_set s hf p _ _ _ (by simp)⟩
+          · intro j m hj q hq
+            rcases get_set _ _ _ _ _ hj with ⟨rfl, rfl⟩ | ⟨hne, hj'⟩
+            · simp only [List.mem_cons] at hq
+              rcases hq with rfl | hq
+              · exact ⟨_, get_set_self _ _ _ _ hp, rfl, rfl, hh⟩
+              · obtain ⟨pr', hp', a, b, c⟩ := l1 j n hn q hq
+                have hqp : q ≠ p := fun e => (hnone j n hn).1 (e ▸ hq)
+                exact ⟨pr', by simp only [setProc]; rw [List.getElem?_set_ne (Ne.symm hqp)]; exact hp', a, b, c⟩
+            · obtain ⟨pr', hp', a, b, c⟩ := l1 j m hj' q hq
+              have hqp : q ≠ p := fun e => (hnone j m hj').1 (e ▸ hq)
+              exact ⟨pr', by simp only [setProc]; rw [List.getElem?_set_ne (Ne.symm hqp)]; exact hp', a, b, c⟩
+          · intro j m hj q hq
+            rcases get_set _ _ _ _ _ hj with ⟨rfl, rfl⟩ | ⟨hne, hj'⟩
+            · simp only at hq
+              cases hx : n.excl with
+              | none => rw [hx] at hq; cases hq
+              | some y => simp [hx] at hex
+            · obtain ⟨pr', hp', a, b, c⟩ := l2 j m hj' q hq
+              have hqp : q ≠ p := fun e => (hnone j m hj').2 (e ▸ hq)
+              exact ⟨pr', by simp only [setProc]; rw [List.getElem?_set_ne (Ne.symm hqp)]; exact hp', a, b, c⟩
+          · intro j m hj he
+            rcases get_set _ _ _ _ _ hj with ⟨rfl, rfl⟩ | ⟨hne, hj'⟩
+            · simp only at he
+              cases hx : n.excl with
+              | none => rw [hx] at he; cases he
+              | some y => simp [hx] at hex
+            · exact l3 j m hj' he
+          · intro q x hq hpcq hlq j hhq
+            rcases get_set _ _ _ _ _ hq with ⟨_, rfl⟩ | ⟨hqp, hq'⟩
+            · simp at hpcq
+            · obtain ⟨m, hm, hme⟩ := l4 q x hq' hpcq hlq j hhq
+              by_cases e : j = i
+              · subst e
+                rw [hn] at hm; cases hm
+                simp [hme] at hex
+              · exact ⟨m, by simp only [setInode]; rw [List.getElem?_set_ne (Ne.symm e)]; exact hm, hme⟩
+        · split at h
+          · simp only [Option.some.injEq] at h; subst h
+            refine ⟨lockinv_procs_only s hi p pr _ hp (by simp [hpc]) (by simp [hpc]) (by simp [hpc]) (by simp) s.name, ?_⟩
+            exact flaginv_set s hf p _ _ _ (by simp)
+          · cases h
+    | rRead =>
+      simp only [hpc] at h
+      cases hb : pr.handle.bind (fun i => (s.inodes[i]?).map (fun n => (i, n))) with
+      | none => simp [hb] at h
+      | some x =>
+        obtain ⟨i, n⟩ := x
+        have hn := handle_inode s pr i n hb
+        have hh : pr.handle = some i := by
+          cases hx : pr.handle with
+          | none => simp [hx] at hb
+          | some j =>
+            simp only [hx, Option.bind_some, Option.map_eq_some_iff] at hb
+            obtain ⟨m, _, e⟩ := hb
+            cases e; rfl
+        simp only [hb, Option.some.injEq] at h; subst h
+        obtain ⟨l1, l2, l3, l4⟩ := hi
+        refine ⟨⟨?_, ?_, ?_, ?_⟩, flaginv_set s hf p _ _ _ (by simp)⟩
+        · intro j m hj q hq
+          rcases get_set _ _ _ _ _ hj with ⟨rfl, rfl⟩ | ⟨hne, hj'⟩
+          · simp only [List.mem_filter, decide_eq_true_eq] at hq
+            obtain ⟨pr', hp', a, b, c⟩ := l1 j n hn q hq.1
+            exact ⟨pr', by simp only [setProc]; rw [List.getElem?_set_ne (Ne.symm hq.2)]; exact hp', a, b, c⟩
+          · obtain ⟨pr', hp', a, b, c⟩ := l1 j m hj' q hq
+            have hqp : q ≠ p := by
+              intro e; subst e
+              rw [hp] at hp'; cases hp'
+              rw [hh] at c; exact hne (Option.some.inj c).symm
+            exact ⟨pr', by simp only [setProc]; rw [List.getElem?_set_ne (Ne.symm hqp)]; exact hp', a, b, c⟩
+        · intro j m hj q hq
+          have hmq : ∃ m0, s.inodes[j]? = some m0 ∧ m0.excl = some q := by
+            rcases get_set _ _ _ _ _ hj with ⟨rfl, rfl⟩ | ⟨_, hj'⟩
+            · exact ⟨n, hn, hq⟩
+            · exact ⟨m, hj', hq⟩
+          obtain ⟨m0, hm0, he0⟩ := hmq
+          obtain ⟨pr', hp', a, b, c⟩ := l2 j m0 hm0 q he0
+          have hqp : q ≠ p := by
+            intro e; subst e
+            rw [hp] at hp'; cases hp'
+            rcases a with a | a <;> simp [hpc] at a
+          exact ⟨pr', by simp only [setProc]; rw [List.getElem?_set_ne (Ne.symm hqp)]; exact hp', a, b, c⟩
+        · intro j m hj he
+          rcases get_set _ _ _ _ _ hj with ⟨rfl, rfl⟩ | ⟨_, hj'⟩
+          · simp only at he ⊢
+            rw [l3 j n hn he]; rfl
+          · exact l3 j m hj' he
+        · intro q x hq hpcq hlq j hhq
+          rcases get_set _ _ _ _ _ hq with ⟨_, rfl⟩ | ⟨hqp, hq'⟩
+          · simp at hpcq
+          · obtain ⟨m, hm, hme⟩ := l4 q x hq' hpcq hlq j hhq
+            by_cases e : j = i
+            · subst e
+              rw [hn] at hm; cases hm
+              exact ⟨_, get_set_self _ _ _ _ hn, hme⟩
+            · exact ⟨m, by simp only [setInode]; rw [List.getElem?_set_ne (Ne.symm e)]; exact hm, hme⟩
+    | wTemp =>
+      simp only [hpc] at h
+      have hl : pr.locked = false := hflag (by simp [hpc]) (by simp [hpc]) (by simp [hpc])
+      cases hr : pr.role with
+      | reader => simp [hr] at h
+      | writer c =>
+        simp only [hr, Option.some.injEq] at h; subst h
+        have base := lockinv_procs_only s hi p pr { pr with role := .writer c, pc := .wOpen, temp := some s.inodes.length } hp
+          (by simp [hpc]) (by simp [hpc]) (by simp [hpc]) (by simp) s.name
+        obtain ⟨l1, l2, l3, l4⟩ := base
+        refine ⟨⟨?_, ?_, ?_, ?_⟩, flaginv_set s hf p _ _ _ (by simp [hl])⟩
+        · intro j m hj q hq
+          by_cases hlt : j < s.inodes.length
+          · rw [List.getElem?_append_left hlt] at hj
+            exact l1 j m hj q hq
+          · rw [List.getElem?_append_right (by omega)] at hj
+            cases hk : j - s.inodes.length with
+            | zero => simp [hk] at hj; subst hj; simp at hq
+            | succ k => simp [hk] at hj
+        · intro j m hj q hq
+          by_cases hlt : j < s.inodes.length
+          · rw [List.getElem?_append_left hlt] at hj
+            exact l2 j m hj q hq
+          · rw [List.getElem?_append_right (by omega)] at hj
+            cases hk : j - s.inodes.length with
+            | zero => simp [hk] at hj; subst hj; simp at hq
+            | succ k => simp [hk] at hj
+        · intro j m hj he
+          by_cases hlt : j < s.inodes.length
+          · rw [List.getElem?_append_left hlt] at hj
+            exact l3 j m hj he
+          · rw [List.getElem?_append_right (by omega)] at hj
+            cases hk : j - s.inodes.length with
+            | zero => simp [hk] at hj; subst hj; rfl
+            | succ k => simp [hk] at hj
+        · intro q x hq hpcq hlq j hhq
+          obtain ⟨m, hm, hme⟩ := l4 q x hq hpcq hlq j hhq
+          have hlt : j < s.inodes.length := (List.getElem?_eq_some_iff.1 hm).1
+          exact ⟨m, by rw [List.getElem?_append_left hlt]; exact hm, hme⟩
+    | wOpen =>
+      simp only [hpc, Option.some.injEq] at h; subst h
+      have hl : pr.locked = false := hflag (by simp [hpc]) (by simp [hpc]) (by simp [hpc])
+      exact ⟨lockinv_procs_only s hi p pr _ hp (by simp [hpc]) (by simp [hpc]) (by simp [hpc]) (by simp) s.name,
+        flaginv_set s hf p _ _ _ (by simp [hl])⟩
+    | wLock =>
+      simp only [hpc] at h
+      have hl : pr.locked = false := hflag (by simp [hpc]) (by simp [hpc]) (by simp [hpc])
+      cases hh : pr.handle with
+      | none =>
+        simp only [hh, Option.some.injEq] at h; subst h
+        exact ⟨lockinv_procs_only s hi p pr _ hp (by simp [hpc]) (by simp [hpc]) (by simp [hpc]) (by simp [hl]) s.name,
+          flaginv_set s hf p _ _ _ (by simp)⟩
+      | some i =>
+        simp only [hh] at h
+        cases hn : s.inodes[i]? with
+        | none => simp [hn] at h
+        | some n =>
+          simp only [hn] at h
+          split at h
+          · rename_i hfree
+            simp only [Bool.and_eq_true, Option.isNone_iff_eq_none, List.isEmpty_iff] at hfree
+            simp only [Option.some.injEq] at h; subst h
+            have hnone := holds_nothing s hi p pr hp (by simp [hpc]) (by simp [hpc]) (by simp [hpc])
+            obtain ⟨l1, l2, l3, l4⟩ := hi
+            refine ⟨⟨?_, ?_, ?_, ?_⟩, flaginv_set s hf p _ _ _ (by simp)⟩
+            · intro j m hj q hq
+              rcases get_set _ _ _ _ _ hj with ⟨rfl, rfl⟩ | ⟨hne, hj'⟩
+              · simp only [hfree.2] at hq; cases hq
+              · obtain ⟨pr', hp', a, b, c⟩ := l1 j m hj' q hq
+                have hqp : q ≠ p := fun e => (hnone j m hj').1 (e ▸ hq)
+                exact ⟨pr', by simp only [setProc]; rw [List.getElem?_set_ne (Ne.symm hqp)]; exact hp', a, b, c⟩
+            · intro j m hj q hq
+              rcases get_set _ _ _ _ _ hj with ⟨rfl, rfl⟩ | ⟨hne, hj'⟩
+              · simp only [Option.some.injEq] at hq; subst hq
+                exact ⟨_, get_set_self _ _ _ _ hp, Or.inl rfl, rfl, rfl⟩
+              · obtain ⟨pr', hp', a, b, c⟩ := l2 j m hj' q hq
+                have hqp : q ≠ p := fun e => (hnone j m hj').2 (e ▸ hq)
+                exact ⟨pr', by simp only [setProc]; rw [List.getElem?_set_ne (Ne.symm hqp)]; exact hp', a, b, c⟩
+            · intro j m hj he
+              rcases get_set _ _ _ _ _ hj with ⟨rfl, rfl⟩ | ⟨_, hj'⟩
+              · exact hfree.2
+              · exact l3 j m hj' he
+            · intro q x hq hpcq hlq j hhq
+              rcases get_set _ _ _ _ _ hq with ⟨rfl, rfl⟩ | ⟨hqp, hq'⟩
+              · simp only [Option.some.injEq] at hhq; subst hhq
+                exact ⟨_, get_set_self _ _ _ _ hn, rfl⟩
+              · obtain ⟨m, hm, hme⟩ := l4 q x hq' hpcq hlq j hhq
+                by_cases e : j = i
+                · subst e
+                  rw [hn] at hm; cases hm
+                  rw [hfree.1] at hme; cases hme
+                · exact ⟨m, by simp only [setInode]; rw [List.getElem?_set_ne (Ne.symm e)]; exact hm, hme⟩
+          · split at h
+            · simp only [Option.some.injEq] at h; subst h
+              exact ⟨lockinv_procs_only s hi p pr _ hp (by simp [hpc]) (by simp [hpc]) (by simp [hpc]) (by simp) s.name,
+                flaginv_set s hf p _ _ _ (by simp [hl])⟩
+            · cases h
+    | wRename =>
+      simp only [hpc, Option.some.injEq] at h; subst h
+      obtain ⟨l1, l2, l3, l4⟩ := hi
+      refine ⟨⟨?_, ?_, l3, ?_⟩, flaginv_set s hf p _ _ _ (by simp)⟩
+      · intro j m hj q hq
+        obtain ⟨pr', hp', a, b, c⟩ := l1 j m hj q hq
+        have hqp : q ≠ p := by
+          intro e; subst e
+          rw [hp] at hp'; cases hp'; simp [hpc] at a
+        exact ⟨pr', by simp only [setProc]; rw [List.getElem?_set_ne (Ne.symm hqp)]; exact hp', a, b, c⟩
+      · intro j m hj q hq
+        obtain ⟨pr', hp', a, b, c⟩ := l2 j m hj q hq
+        by_cases hqp : q = p
+        · subst hqp
+          rw [hp] at hp'; cases hp'
+          exact ⟨_, get_set_self _ _ _ _ hp, Or.inr rfl, b, c⟩
+        · exact ⟨pr', by simp only [setProc]; rw [List.getElem?_set_ne (Ne.symm hqp)]; exact hp', a, b, c⟩
+      · intro q x hq hpcq hlq j hhq
+        rcases get_set _ _ _ _ _ hq with ⟨rfl, rfl⟩ | ⟨_, hq'⟩
+        · exact l4 q pr hp (Or.inl hpc) hlq j hhq
+        · exact l4 q x hq' hpcq hlq j hhq
+    | wUnlock =>
+      simp only [hpc] at h
+      cases hh : pr.handle with
+      | none =>
+        simp only [hh, Option.some.injEq] at h; subst h
+        obtain ⟨l1, l2, l3, l4⟩ := hi
+        refine ⟨⟨?_, ?_, l3, ?_⟩, flaginv_set s hf p _ _ _ (by simp)⟩
+        · intro j m hj q hq
+          obtain ⟨pr', hp', a, b, c⟩ := l1 j m hj q hq
+          have hqp : q ≠ p := by
+            intro e; subst e
+            rw [hp] at hp'; cases hp'; simp [hpc] at a
+          exact ⟨pr', by simp only [setProc]; rw [List.getElem?_set_ne (Ne.symm hqp)]; exact hp', a, b, c⟩
+        · intro j m hj q hq
+          obtain ⟨pr', hp', a, b, c⟩ := l2 j m hj q hq
+          have hqp : q ≠ p := by
+            intro e; subst e
+            rw [hp] at hp'; cases hp'; rw [hh] at c; cases c
+          exact ⟨pr', by simp only [setProc]; rw [List.getElem?_set_ne (Ne.symm hqp)]; exact hp', a, b, c⟩
+        · intro q x hq hpcq hlq j hhq
+          rcases get_set _ _ _ _ _ hq with ⟨_, rfl⟩ | ⟨_, hq'⟩
+          · simp at hpcq
+          · exact l4 q x hq' hpcq hlq j hhq
+      | some i =>
+        simp only [hh] at h
+        cases hn : s.inodes[i]? with
+        | none => simp [hn] at h
+        | some n =>
+          simp only [hn, Option.some.injEq] at h; subst h
+          obtain ⟨l1, l2, l3, l4⟩ := hi
+          refine ⟨⟨?_, ?_, ?_, ?_⟩, flaginv_set s hf p _ _ _ (by simp)⟩
+          · intro j m hj q hq
+            have hmq : ∃ m0, s.inodes[j]? = some m0 ∧ q ∈ m0.shared := by
+              rcases get_set _ _ _ _ _ hj with ⟨rfl, rfl⟩ | ⟨_, hj'⟩
+              · exact ⟨n, hn, hq⟩
+              · exact ⟨m, hj', hq⟩
+            obtain ⟨m0, hm0, hq0⟩ := hmq
+            obtain ⟨pr', hp', a, b, c⟩ := l1 j m0 hm0 q hq0
+            have hqp : q ≠ p := by
+              intro e; subst e
+              rw [hp] at hp'; cases hp'; simp [hpc] at a
+            exact ⟨pr', by simp only [setProc]; rw [List.getElem?_set_ne (Ne.symm hqp)]; exact hp', a, b, c⟩
+          · intro j m hj q hq
+            rcases get_set _ _ _ _ _ hj with ⟨rfl, rfl⟩ | ⟨hne, hj'⟩
+            · simp only at hq
+              cases hlk : pr.locked with
+              | true => simp [hlk] at hq
+              | false =>
+                simp only [hlk, Bool.false_eq_true, if_false] at hq
+                obtain ⟨pr', hp', a, b, c⟩ := l2 j n hn q hq
+                have hqp : q ≠ p := by
+                  intro e; subst e
+                  rw [hp] at hp'; cases hp'; rw [hlk] at b; cases b
+                exact ⟨pr', by simp only [setProc]; rw [List.getElem?_set_ne (Ne.symm hqp)]; exact hp', a, b, c⟩
+            · obtain ⟨pr', hp', a, b, c⟩ := l2 j m hj' q hq
+              have hqp : q ≠ p := by
+                intro e; subst e
+                rw [hp] at hp'; cases hp'; rw [hh] at c; exact hne (Option.some.inj c).symm
+              exact ⟨pr', by simp only [setProc]; rw [List.getElem?_set_ne (Ne.symm hqp)]; exact hp', a, b, c⟩
+          · intro j m hj he
+            rcases get_set _ _ _ _ _ hj with ⟨rfl, rfl⟩ | ⟨_, hj'⟩
+            · simp only at he ⊢
+              cases hlk : pr.locked with
+              | true => simp [hlk] at he
+              | false => simp only [hlk, Bool.false_eq_true, if_false] at he; exact l3 j n hn he
+            · exact l3 j m hj' he
+          · intro q x hq hpcq hlq j hhq
+            rcases get_set _ _ _ _ _ hq with ⟨_, rfl⟩ | ⟨hqp, hq'⟩
+            · simp at hpcq
+            · obtain ⟨m, hm, hme⟩ := l4 q x hq' hpcq hlq j hhq
+              by_cases e : j = i
+              · subst e
+                rw [hn] at hm; cases hm
+                refine ⟨_, get_set_self _ _ _ _ hn, ?_⟩
+                simp only
+                cases hlk : pr.locked with
+                | false => simp [hme]
+                | true =>
+                  -- `p` holds the lock on `j` too: then `q = p`
+                  obtain ⟨m2, hm2, hme2⟩ := l4 p pr hp (Or.inr hpc) hlk j hh
+                  rw [hn] at hm2; cases hm2
+                  rw [hme] at hme2
+                  exact absurd (Option.some.inj hme2) hqp
+              · exact ⟨m, by simp only [setInode]; rw [List.getElem?_set_ne (Ne.symm e)]; exact hm, hme⟩
+
+theorem lockflag_run (s : FS) (sched : List (Pid × Bool)) (hi : LockInv s) (hf : FlagInv s) :
+    LockInv (frun s sched) ∧ FlagInv (frun s sched) := by
+  induction sched generalizing s with
+  | nil => exact ⟨hi, hf⟩
+  | cons x rest ih =>
+    obtain ⟨p, t⟩ := x
+    simp only [frun]
+    cases h : fstep s p t with
+    | none => simpa [h] using ih s hi hf
+    | some s' =>
+      obtain ⟨a, b⟩ := lockflag_step s s' p t hi hf h
+      simpa [h] using ih s' a b
+
+theorem flaginv_init (initial : Option Content) (roles : List Role) : FlagInv (finit initial roles) := by
+  intro p pr hp _ _ _
+  simp only [finit, List.getElem?_map] at hp
+  cases hr : roles[p]? with
+  | none => simp [hr] at hp
+  | some r => simp [hr] at hp; subst hp; rfl
+
+/-- **no lock outlives its holder's critical section**: under every schedule, a process that has
+    finished (or has not yet reached a locked section) holds neither a shared nor the exclusive
+    lock on any inode — so a waiter is only ever held up by a process that is itself between
+    acquiring and releasing, never by a finished one -/
+theorem finished_process_holds_no_lock (initial : Option Content) (roles : List Role)
+    (sched : List (Pid × Bool)) (p : Pid) (pr : Proc)
+    (hp : (frun (finit initial roles) sched).procs[p]? = some pr) (hd : pr.pc = .done)
+    (i : Nat) (n : Inode) (hn : (frun (finit initial roles) sched).inodes[i]? = some n) :
+    p ∉ n.shared ∧ n.excl ≠ some p :=
+  holds_nothing _ (lockflag_run _ sched (lockinv_init initial roles) (flaginv_init initial roles)).1 p pr hp
+    (by simp [hd]) (by simp [hd]) (by simp [hd]) i n hn
+
+/-- **readers and the writer exclude each other**: while an inode is locked exclusively nobody
+    holds a shared lock on it -/
+theorem exclusive_excludes_shared (initial : Option Content) (roles : List Role)
+    (sched : List (Pid × Bool)) (i : Nat) (n : Inode)
+    (hn : (frun (finit initial roles) sched).inodes[i]? = some n) (he : n.excl.isSome = true) :
+    n.shared = [] :=
+  (lockflag_run _ sched (lockinv_init initial roles) (flaginv_init initial roles)).1.2.2.1 i n hn he
+
 /-! non-vacuity: two writers and a reader, an interleaving in which the reader opens the old file,
     the first writer renames, and the reader still reads the complete old content -/
 example : (frun (finit (some [1]) [.reader, .writer [1, 2], .writer [1, 3]])
